@@ -17,6 +17,19 @@ struct KllFam {
   static bool has_exact_region() { return false; }
   static bool exact_claim(const SK&, double) { return false; }
   static SK roundtrip(const SK& s) { return s; }
+  // serialize + deserialize through a stream image or a byte image
+#if defined(C08_ITEM_SELFMOVE)
+  static SK roundtrip_image(const SK& s, bool) { return s; }
+#else
+  static SK roundtrip_image(const SK& s, bool bytes) {
+    if (bytes) { auto b = s.serialize(); return SK::deserialize(b.data(), b.size()); }
+    std::stringstream ss(std::ios::in | std::ios::out | std::ios::binary);
+    s.serialize(ss);
+    return SK::deserialize(ss);
+  }
+#endif
+  static std::string published_error_text(const SK& s) { return "eps=" + str(s.get_normalized_rank_error(false)) + " eps_pmf=" + str(s.get_normalized_rank_error(true)); }
+  static bool within_published(const SK& s, double est, double tr) { return std::fabs(est - tr) <= s.get_normalized_rank_error(false); }
   static void gen_cfgs(Rng& r, int nsk, std::vector<int>& cfg) {
     cfg.assign(static_cast<size_t>(nsk), 8);
     const int mode = static_cast<int>(r.below(10));
@@ -48,6 +61,10 @@ static std::vector<c08::Cell> cells(bool T) {
   if (T) for (int k : {20, 200}) for (int order : {1, 0}) for (int merge : {0, 1}) v.push_back(c08::Cell{k, 1000000, order, merge, 400});
   for (uint64_t n : {100000ULL, 10000ULL}) for (int k : {20, 200}) for (int order : {0, 1, 2}) for (int merge : {0, 1}) v.push_back(c08::Cell{k, n, order, merge, tr});
   for (int k : {20, 200}) v.push_back(c08::Cell{k, 100000, 1, 2, tr});       // mixed k: error published for the smallest k
+#if !defined(C08_ITEM_SELFMOVE)
+  v.push_back(c08::Cell{20, 100000, 1, 4, tr});      // ... also after a serialization round trip of the merged sketch
+  v.push_back(c08::Cell{200, 10000, 1, 4, tr});
+#endif
   v.push_back(c08::Cell{20, 10000, 3, 0, tr});
   v.push_back(c08::Cell{200, 10000, 3, 1, tr});
   // very large k (upper half of the legal range up to MAX_K = 65535): 4 sketches merged; the published error is the one of the nominal k
@@ -58,7 +75,8 @@ static std::vector<c08::Cell> cells(bool T) {
   if (T) { v.push_back(c08::Cell{8, 100000, 1, 0, tr}); v.push_back(c08::Cell{64, 100000, 2, 1, tr}); v.push_back(c08::Cell{1000, 100000, 1, 1, 1000}); }
   return v;
 }
-uint64_t num_cases(bool thorough) { return static_cast<uint64_t>(thorough ? NEXH_T : NEXH_Q) + cells(thorough).size(); }
+static const uint64_t NDBL = VARIANT ? 0 : 2;
+uint64_t num_cases(bool thorough) { return static_cast<uint64_t>(thorough ? NEXH_T : NEXH_Q) + cells(thorough).size() + NDBL; }
 
 void run_case(uint64_t idx, Rng& r) {
   const bool T = G().thorough();
@@ -77,7 +95,11 @@ void run_case(uint64_t idx, Rng& r) {
     c08::exhaustive_case<KllFam>(r, want_merge, fmin, fmax);
   } else {
     const auto cs = cells(T);
-    try { c08::sampled_cell_eps<KllFam>(cs[idx - nexh], r); }
+    try {
+      if (idx - nexh < cs.size()) c08::sampled_cell_eps<KllFam>(cs[idx - nexh], r);
+      else if (idx - nexh - cs.size() == 0) c08::doubling_case<KllFam>(200, 5000, 34, T ? 6 : 2, r);
+      else c08::doubling_case<KllFam>(20, 2000, 35, T ? 6 : 2, r);
+    }
     catch (const std::exception& e) { checked(); fail(std::string(KllFam::name()) + "|sampled|exception-in-valid-usage", G().cur_desc + " what=" + e.what()); }
   }
 }
